@@ -568,7 +568,13 @@ for _patch, _props in (('refactors/R3/patch.diff', ('C04', 'C05', 'C06', 'C07', 
                        ('refactors/R11/patch.diff', ('C12', 'C13', 'C14', 'C15', 'C16', 'C18')),
                        ('refactors/R12/patch.diff', ('C03', 'C04', 'C05', 'C06', 'C07', 'C08', 'C09', 'C10', 'C11', 'C18', 'C20')),
                        ('refactors/R13/patch.diff', ('C01', 'C02', 'C04', 'C05', 'C06', 'C08', 'C09', 'C10', 'C11', 'C17')),
-                       ('refactors/R14/patch.diff', ('C09', 'C15', 'C17', 'C19'))):    # harmless twin of seed C16c (prior spec looked up once per parameter)     # harmless twin of seed C15b (columns by list indexing, not by mask)
+                       ('refactors/R14/patch.diff', ('C09', 'C15', 'C17', 'C19')),
+                       ('refactors/R15/patch.diff', ('C03', 'C06', 'C08', 'C10', 'C12', 'C14', 'C17')),
+                       ('refactors/R16/patch.diff', ('C01', 'C05', 'C06', 'C08', 'C09', 'C11', 'C19', 'C07')),
+                       ('refactors/R17/patch.diff', ('C08', 'C09', 'C17', 'C19')),
+                       ('refactors/R18/patch.diff', ('C02', 'C08', 'C10', 'C11', 'C15', 'C16', 'C19')),
+                       ('refactors/R19/patch.diff', ('C01', 'C04', 'C05', 'C08', 'C11')),
+                       ('refactors/R20/patch.diff', ('C12', 'C13'))):       # harmless twin of seed C12f (delay parameters read by a helper)   # harmless twin of seed C08e (memo with a complete key)    # harmless twin of seed C16c (prior spec looked up once per parameter)     # harmless twin of seed C15b (columns by list indexing, not by mask)
     for _p in _props:
         MUTANTS.append({'prop': _p, 'name': 'refactor-' + _patch.split('/')[1], 'kind': 'silent', 'patch': _patch})
 M('C06', 'revert-sentinel-slot', S, "empty_array = -np.ones((self.num_reactions, self.num_species + 1, 2), dtype = np.int32)", "empty_array = -np.ones((self.num_reactions, self.num_species, 2), dtype = np.int32)", 'fire', 'R6.4-safe-sentinel/SafeModelCSimInterface')
@@ -611,10 +617,14 @@ for _p, _exp in (('C14', 'R14.6-formula-language/kinetic-law/log'), ('C12', 'R12
 M('C12', 'rule-legacy-parser', SB, "    math_ast = libsbml.parseL3FormulaWithSettings(rule_formula, _L3_PARSER_SETTINGS)\n    flag = rule.setMath(math_ast)\n",
   "    math_ast = libsbml.parseFormula(rule_formula)\n    flag = rule.setMath(math_ast)\n", 'fire', 'R12.5-formula-language/rule/operators')
 M('C12', 'rule-power-spelling-dropped', SB, "    rule_formula = str(rule_formula).replace('**','^')\n", "    rule_formula = str(rule_formula)\n", 'fire', 'R12.5-formula-language/rule/power-spelling')
-M('C12', 'settings-local-variable', SB, "    math_ast = libsbml.parseL3FormulaWithSettings(ratestring, _L3_PARSER_SETTINGS)\n",
-  "    l3 = libsbml.L3ParserSettings()\n    l3.setParseLog(libsbml.L3P_PARSE_LOG_AS_LN)\n    math_ast = libsbml.parseL3FormulaWithSettings(ratestring, l3)\n", 'silent')
-M('C14', 'settings-local-variable', SB, "    math_ast = libsbml.parseL3FormulaWithSettings(ratestring, _L3_PARSER_SETTINGS)\n",
-  "    l3 = libsbml.L3ParserSettings()\n    l3.setParseLog(libsbml.L3P_PARSE_LOG_AS_LN)\n    math_ast = libsbml.parseL3FormulaWithSettings(ratestring, l3)\n", 'silent')
+M('C12', 'settings-local-variable', SB, "    _L3_PARSER_SETTINGS.setModel(model)\n    math_ast = libsbml.parseL3FormulaWithSettings(ratestring, _L3_PARSER_SETTINGS)\n",
+  "    l3 = libsbml.L3ParserSettings()\n    l3.setParseLog(libsbml.L3P_PARSE_LOG_AS_LN)\n    l3.setModel(model)\n    math_ast = libsbml.parseL3FormulaWithSettings(ratestring, l3)\n", 'silent')
+M('C12', 'settings-local-without-model', SB, "    _L3_PARSER_SETTINGS.setModel(model)\n    math_ast = libsbml.parseL3FormulaWithSettings(ratestring, _L3_PARSER_SETTINGS)\n",
+  "    l3 = libsbml.L3ParserSettings()\n    l3.setParseLog(libsbml.L3P_PARSE_LOG_AS_LN)\n    math_ast = libsbml.parseL3FormulaWithSettings(ratestring, l3)\n", 'fire', 'kinetic-law/model-names')
+M('C14', 'settings-local-variable', SB, "    _L3_PARSER_SETTINGS.setModel(model)\n    math_ast = libsbml.parseL3FormulaWithSettings(ratestring, _L3_PARSER_SETTINGS)\n",
+  "    l3 = libsbml.L3ParserSettings()\n    l3.setParseLog(libsbml.L3P_PARSE_LOG_AS_LN)\n    l3.setModel(model)\n    math_ast = libsbml.parseL3FormulaWithSettings(ratestring, l3)\n", 'silent')
+M('C14', 'settings-local-without-model', SB, "    _L3_PARSER_SETTINGS.setModel(model)\n    math_ast = libsbml.parseL3FormulaWithSettings(ratestring, _L3_PARSER_SETTINGS)\n",
+  "    l3 = libsbml.L3ParserSettings()\n    l3.setParseLog(libsbml.L3P_PARSE_LOG_AS_LN)\n    math_ast = libsbml.parseL3FormulaWithSettings(ratestring, l3)\n", 'fire', 'kinetic-law/model-names')
 M('C09', 'lineage-lambda-before-propensities', L,
   "\t\t\tself.interface.compute_lineage_propensities(&self.c_current_state[0], &self.c_propensity[0], current_volume, current_time)\n\n\t\t\tLambda = cyrandom.array_sum(&self.c_propensity[0], self.num_propensities)\n",
   "\t\t\tLambda = cyrandom.array_sum(&self.c_propensity[0], self.num_propensities)\n\t\t\tself.interface.compute_lineage_propensities(&self.c_current_state[0], &self.c_propensity[0], current_volume, current_time)\n\n",
